@@ -70,8 +70,8 @@ CHECKS = {
         'engine': 'langx',
         'rule': 'bounded-exhaustive template texts in exact-size buffers',
         'parts': [
-            P('props/C01.cpp', 'asan+hook', 'tokens-asan-hook', tier_args={'quick': ['--tokens', '2', '--values', '8', '--nodes', '2', '--dev', '1'], 'thorough': ['--tokens', '3', '--values', '8', '--nodes', '3', '--dev', '1', '--wide', '0']}),
-            P('props/C01.cpp', 'fast', 'tokens-fast', tier_args={'quick': ['--tokens', '3', '--values', '4', '--nodes', '2', '--dev', '2', '--nodes0', '3'], 'thorough': ['--tokens', '4', '--values', '2', '--wide', '0', '--nodes', '3', '--dev', '1', '--nodes0', '4']}),
+            P('props/C01.cpp', 'asan+hook', 'tokens-asan-hook', tier_args={'quick': ['--tokens', '2', '--values', '8', '--nodes', '2', '--dev', '1', '--micro', '0'], 'thorough': ['--tokens', '3', '--values', '8', '--nodes', '3', '--dev', '1', '--wide', '0', '--micro', '1']}),
+            P('props/C01.cpp', 'fast', 'tokens-fast', tier_args={'quick': ['--tokens', '3', '--values', '4', '--nodes', '2', '--dev', '2', '--nodes0', '3'], 'thorough': ['--tokens', '4', '--values', '2', '--wide', '0', '--nodes', '3', '--dev', '1', '--nodes0', '4', '--micro', '1']}),
         ],
         'floor': {'quick': 100, 'thorough': 100},
     },
